@@ -200,8 +200,36 @@ def run(ctx, anchors=None):
     ctx.floor("R14.5", n_ops, 4, "operands handed to the modular add helper")
     ctx.extra["inline_names"] = sorted(arms)
 
+    # ---- R14.6 a decoded field is not thrown away unread: addr-to-scriptpubkey strips the address's version byte; the path that
+    # goes on to build the script must have compared that byte with something (the script it builds is right for one version only)
+    from .. import symx as _sx14
+    ctx.rule("R14.6", "address -> scriptPubKey inspects the version byte before discarding it")
+    a2s = fb.fn("Value::do_addr_to_spk")
+    X14 = _sx14.Explorer(prog, inline=lambda fn, n: False, transparent=lambda n: True)
+    try:
+        outs14 = X14.explore(a2s, this=("a", "this"), limit=500)
+    except _sx14.Unsupported as e:
+        raise AnalysisBroken("R14.6: %s" % e)
+    builds = [o for o in outs14 if any(e.kind == "mcall" and e.name == "erase" for e in o.events) and any(e.kind == "op" and e.name == "<<" for e in o.events)]
+    if not builds:
+        raise AnalysisBroken("R14.6: do_addr_to_spk has no path that strips a byte and builds a script")
+    ctx.site(len(builds))
+
+    def reads_first(o):
+        for (t, v) in o.conds:
+            for y in _sx14.subterms(t):
+                if isinstance(y, tuple) and y[0] == "ap" and y[1] in ("[]", "m:at", "m:front") and (len(y) == 3 or y[3] == _sx14.C(0)) and \
+                        any(isinstance(z, tuple) and z[0] == "f" and z[2] == "data" for z in _sx14.subterms(y[2])):
+                    return True
+        return False
+    blind = [o for o in builds if not reads_first(o)]
+    ctx.inst(not blind, "R14.6", "version-byte-inspected", a2s.loc(), "every path that builds the script compared the address's version byte first",
+             "do_addr_to_spk erases the version byte without ever looking at it and always builds a pay-to-pubkey-hash script: a P2SH address (version 5, `3J98t1WpEZ73CNmQviecrnyiWrnqRhWNLy`) "
+             "is silently turned into a P2PKH script paying to the script hash, and scriptpubkey-to-addr of the result is a different address")
+
 
 MUTANTS = [
+    dict(name="address-version-ignored", file="value.h", find="        if (data[0] != 0) {\n            fprintf(stderr, \"unsupported address version", replace="        if (false) {\n            fprintf(stderr, \"unsupported address version", expect=["R14.6:version-byte-inspected"]),
     dict(name="sub-negates-mod-2^256", file="value.cpp", find="if (g.EqualTo(0)) b = -b; else if (!b.EqualTo(0)) b = g - b;", replace="b = -b;", expect=["R14.5:modular-operand:do_sub:b"]),
     dict(name="inline-alias-removed", file="value.h", find="        if (fun == \"b32d\") { do_bech32dec(); return true; }\n", replace="", expect=["R14.1:inline=b32d"]),
     dict(name="inline-dispatches-elsewhere", file="value.h", find="if (fun == \"b58ce\") { do_base58chkenc(); return true; }", replace="if (fun == \"b58ce\") { do_base58chkdec(); return true; }", expect=["R14.1:inline=b58ce"]),
